@@ -48,6 +48,31 @@ var lexCaps = []int{0, 0, 1, 2, 3, 8, 64}
 func (h *lexHarness) Gen(r *Rand, tier string, clean bool) any {
 	rc := (&robustHarness{}).Gen(r, tier, clean).(*RobustCase)
 	c := &LexCase{Text: rc.Text, Origin: rc.Origin, Cap: lexCaps[r.Intn(len(lexCaps))], Sched: r.U64(), Preempt: r.Intn(6), PMean: []int{5, 20, 60}[r.Intn(3)], Pace: r.Intn(3)}
+	if r.Chance(0.08) {
+		// the printed form of one value, alone: it has to come out as one token carrying exactly that text
+		var txt string
+		switch r.Intn(6) {
+		case 0:
+			txt = V.Nodes[r.Intn(len(V.Nodes))].String()
+		case 1:
+			txt = V.Preds[r.Intn(len(V.Preds))].String()
+		case 2:
+			for txt == "" || strings.Count(txt, `"`) > 2 {
+				o := V.Objs[r.Intn(len(V.Objs))]
+				if _, err := o.Literal(); err == nil {
+					txt = o.String()
+				}
+			}
+		case 3:
+			txt = []string{"?x", "?some_binding", "?B2"}[r.Intn(3)]
+		case 4:
+			txt = []string{"_:v1", "_:blank_node"}[r.Intn(2)]
+		default:
+			txt = []string{`"p"@[,]`, `"p"@[2006-01-02T15:04:05Z,]`, `"q"@[,2016-02-29T23:59:59.999999999Z]`, `"p"@[2006-01-02T15:04:05Z,2010-06-01T00:00:00.0000005Z]`, `"p"@[?lo,?hi]`}[r.Intn(5)]
+		}
+		c.Text, c.Origin = []string{"", " ", "\n"}[r.Intn(3)]+txt+[]string{"", " ", "\t"}[r.Intn(3)], "single-value"
+		return c
+	}
 	if r.Chance(0.1) {
 		// several statements in one text, odd white space
 		other := (&robustHarness{}).Gen(r, tier, clean).(*RobustCase)
@@ -222,6 +247,12 @@ func (h *lexHarness) Run(t *testing.T, ci any) *Outcome {
 		return v
 	}
 	refR := renderToks(ref.toks)
+	if c.Origin == "single-value" {
+		if want := strings.TrimSpace(c.Text); len(ref.toks) != 2 || ref.toks[0].Text != want || ref.toks[1].Type != lexer.ItemEOF {
+			return mk("value-not-one-token", "the printed form of a value must be emitted as one token carrying exactly that text\n%s", refR)
+		}
+		o.stat("probe_single_value_inputs", 1)
+	}
 	// the same input under other capacities, schedules and consumer paces
 	vr := NewRand(c.Sched, 16)
 	decisions := 0
